@@ -57,6 +57,8 @@ void *pipe_create(char *cmdline, char *flags)
     PipeDev *pd = (PipeDev *)xmalloc(sizeof(PipeDev));
 
     pd->argv = argv_create(cmdline, "|&");
+    if (pd->argv[0] == NULL)
+        err_exit(false, "pipe device has an empty command line");
     pd->cpid = -1;
 
     return (void *)pd;
